@@ -61,7 +61,7 @@ CLAIMED = {
              'operator (flux-surface, v-parallel incl. keep-gradient, poloidal incl. splines-unchanged) hands to its per-slice kernel the '
              'table rows / advection speed / radius / velocity / potential plane of that slice\'s own global coordinates and processes '
              'every global slice exactly once, and the three layout-specific initialisers produce init_f at the global coordinates '
-             '(exp/tanh/sqrt/cos uninterpreted). Flux tables are compared symbolically in dt. With C01/C03/C04 (layout changes) and '
+             '(exp/tanh/sqrt/cos uninterpreted). Flux tables are compared symbolically in dt. The real ParallelGradient under the real v-parallel gridStep gives, on every distributed grid, the speeds of the one-process run of the same code (symbolic potential). With C01/C03/C04 (layout changes) and '
              'C07-C13/C16 (kernels) this gives decomposition independence of the split step in exact arithmetic.',
         design_ref='DESIGN.md 4 C05',
         note=TRUST + 'NOT decided: equality of floating-point results (reduction order/rounding), the quasi-neutrality solve (FFT/spsolve). '
@@ -193,9 +193,9 @@ CLAIMED = {
              'layout of the driver\'s 3-D swapper (replicated ones included); min/max reported at the drawing rank equal the global '
              'min/max for the whole grid and for every slice with one or two fixed indices (dimensions and indices forked by the solver; ranks without the '
              'slice contribute the neutral element); unit field gives the analytic volume factor; the collector stores step k in slot '
-             'k mod saveStep and reduces to rank 0.',
+             'k mod saveStep and reduces to rank 0; the slot expression is decided in binary64 (round / int / true and floor division encoded exactly) for every double dt in [2^-7, 4] and up to 7 (thorough 12) accumulated steps.',
         design_ref='DESIGN.md 4 C17',
-        note=TRUST + 'Bounds: extents 3^4 (min/max (3,2,3,2)), grids {1,2}^2 (thorough {1,2,3}^2). Not claimed: float t//dt, reduction-order rounding; '
+        note=TRUST + 'Bounds: extents 3^4 (min/max (3,2,3,2)), grids {1,2}^2 (thorough {1,2,3}^2). Not claimed: reduction-order rounding; '
                      'collector min/max exercised on a concrete exact field.'),
     'C18': dict(
         category='proof',
